@@ -16,9 +16,8 @@ import (
 )
 
 // expectedCodecString is the RFC 6381 string of a track with its current parameters.
-// avc1 / mp4a / opus are computed by the harness; hvc1, av01 and vp09 use the repository's
-// codecparams package on a codec object rebuilt from the model's current parameters (what is
-// checked is that the *current* parameters are used and that strings are not duplicated).
+// avc1 / mp4a / opus / av01 / vp09 are computed by the harness from the parameter sets (av01 from
+// mediacommon's parsed sequence header); hvc1 still uses the repository's codecparams package.
 func expectedCodecString(spec TrackSpec, cur ParamSet) string {
 	switch spec.Codec {
 	case "h264":
@@ -33,9 +32,33 @@ func expectedCodecString(spec TrackSpec, cur ParamSet) string {
 		return "mp4a.40." + strconv.Itoa(typ)
 	case "opus":
 		return "opus"
+	case "vp9":
+		// vp09.<profile>.<level>.<bit depth>: profile 0, level 1.0 ("10"), 8 bits for every set of the kit
+		return "vp09.00.10.08"
+	case "av1":
+		// av01.P.LLT.DD.M.CCC.cp.tc.mc.F (AV1 codec ISO media file format binding, section 5)
+		var sh av1.SequenceHeader
+		if err := sh.Unmarshal(cur.A); err == nil && len(sh.SeqLevelIdx) > 0 && len(sh.SeqTier) > 0 {
+			b2 := func(b bool) string {
+				if b {
+					return "1"
+				}
+				return "0"
+			}
+			tier := "M"
+			if sh.SeqTier[0] {
+				tier = "H"
+			}
+			cc := sh.ColorConfig
+			out := fmt.Sprintf("av01.%d.%02d%s.%02d.%s.%s%s%d.", sh.SeqProfile, sh.SeqLevelIdx[0], tier, cc.BitDepth, b2(cc.MonoChrome), b2(cc.SubsamplingX), b2(cc.SubsamplingY), cc.ChromaSamplePosition)
+			if cc.ColorDescriptionPresentFlag {
+				return out + fmt.Sprintf("%02d.%02d.%02d.%s", cc.ColorPrimaries, cc.TransferCharacteristics, cc.MatrixCoefficients, b2(cc.ColorRange))
+			}
+			return out + "01.01.01.0"
+		}
 	}
-	c := spec
-	_ = c
+	// hvc1: the repository's codecparams package on a codec object rebuilt from the model's
+	// current parameters (only "the current parameters are used" is checked for H265)
 	cp := CodecOfParams(spec, cur)
 	return codecparams.Marshal(cp)
 }
